@@ -1005,3 +1005,283 @@ def ref(h5opts):
     result.setdefault("shuffle", True)
     return result
 ''')
+
+
+# -- remaining supporting functions ---------------------------------------------------------------------------
+
+_reg('cooler.core._selectors._IndexingMixin._isintlike', 'cooler.core._selectors', 'a key is a scalar iff int() accepts it', '''
+def ref(self, num):
+    try:
+        int(num)
+    except (TypeError, ValueError):
+        return False
+    return True
+''')
+_reg('cooler.core._selectors.RangeSelector2D.shape', 'cooler.core._selectors', 'matrix shape', '''
+def ref(self):
+    return self._shape
+''')
+_reg('cooler.core._selectors.RangeSelector2D.__len__', 'cooler.core._selectors', 'number of rows', '''
+def ref(self):
+    return self._shape[0]
+''')
+
+_reg('cooler.create._ingest.TabixAggregator.__init__', 'cooler.create._ingest',
+     'loader state: one-based flag as bool; default columns of the second anchor are 3 and 4 (zero-based); contigs of the file', '''
+def ref(self, filepath, chromsizes, bins, map=map, n_chunks=1, is_one_based=False, **kwargs):
+    try:
+        import pysam
+    except ImportError:
+        raise ImportError("pysam required") from None
+    import pickle
+    import dill
+    dill.settings["protocol"] = pickle.HIGHEST_PROTOCOL
+    self._map = map
+    self.n_chunks = n_chunks
+    self.is_one_based = bool(is_one_based)
+    self.C2 = kwargs.pop("C2", 3)
+    self.P2 = kwargs.pop("P2", 4)
+    self.gs = GenomeSegmentation(chromsizes, bins)
+    self.filepath = filepath
+    self.n_records = None
+    with pysam.TabixFile(filepath, "r", encoding="ascii") as f:
+        try:
+            self.file_contigs = [c.decode("ascii") for c in f.contigs]
+        except AttributeError:
+            self.file_contigs = f.contigs
+        if not len(self.file_contigs):
+            raise RuntimeError("no reference sequences")
+    for chrom in self.gs.contigs:
+        if chrom not in self.file_contigs:
+            warnings.warn("missing contig", stacklevel=2)
+    warnings.warn("note", stacklevel=2)
+''')
+
+_reg('cooler.create._ingest.HDF5Aggregator.__init__', 'cooler.create._ingest', 'loader state and chromosome extents', '''
+def ref(self, h5pairs, chromsizes, bins, chunksize, **kwargs):
+    self.h5 = h5pairs
+    self.C1 = kwargs.pop("C1", "chrms1")
+    self.P1 = kwargs.pop("P1", "cuts1")
+    self.C2 = kwargs.pop("C2", "chrms2")
+    self.P2 = kwargs.pop("P2", "cuts2")
+    self.gs = GenomeSegmentation(chromsizes, bins)
+    self.chunksize = chunksize
+    self.partition = self._index_chroms()
+''')
+
+_reg('cooler.create._ingest.HDF5Aggregator._load_chunk', 'cooler.create._ingest', 'the four columns of rows [lo, hi)', '''
+def ref(self, lo, hi):
+    data = OrderedDict([("chrom_id1", self.h5[self.C1][lo:hi]), ("cut1", self.h5[self.P1][lo:hi]),
+                        ("chrom_id2", self.h5[self.C2][lo:hi]), ("cut2", self.h5[self.P2][lo:hi])])
+    return pd.DataFrame(data)
+''')
+
+_reg('cooler.create._ingest.HDF5Aggregator.aggregate', 'cooler.create._ingest',
+     'chunks never split a row bin; lower-triangle pairs refused; each side binned by its own chromosome and position; counts per pixel', '''
+def ref(self, chrom):
+    h5pairs = self.h5
+    C1, P1, C2, P2 = self.C1, self.P1, self.C2, self.P2
+    chunksize = self.chunksize
+    gs = self.gs
+    cid = gs.idmap[chrom]
+    chrom_lo, chrom_hi = self.partition.get(cid, (-1, -1))
+    lo = chrom_lo
+    hi = lo
+    while hi < chrom_hi:
+        lo, hi = hi, min(hi + chunksize, chrom_hi)
+        abspos = gs.chrom_abspos[cid] + h5pairs[P1][hi - 1]
+        bin_id = int(np.searchsorted(gs.start_abspos, abspos, side="right")) - 1
+        bin_end = gs.bins["end"][bin_id]
+        hi = bisect_left(h5pairs[P1], bin_end, lo, chrom_hi)
+        if lo == hi:
+            hi = chrom_hi
+        table = self._load_chunk(lo, hi)
+        abspos1 = gs.chrom_abspos[h5pairs[C1][lo:hi]] + h5pairs[P1][lo:hi]
+        abspos2 = gs.chrom_abspos[h5pairs[C2][lo:hi]] + h5pairs[P2][lo:hi]
+        if np.any(abspos1 > abspos2):
+            raise ValueError("lower triangle")
+        if gs.binsize is None:
+            table["bin1_id"] = np.searchsorted(gs.start_abspos, abspos1, side="right") - 1
+            table["bin2_id"] = np.searchsorted(gs.start_abspos, abspos2, side="right") - 1
+        else:
+            rel_bin1 = table["cut1"] // gs.binsize
+            rel_bin2 = table["cut2"] // gs.binsize
+            table["bin1_id"] = gs.chrom_binoffset[table["chrom_id1"].values] + rel_bin1
+            table["bin2_id"] = gs.chrom_binoffset[table["chrom_id2"].values] + rel_bin2
+        gby = table.groupby(["bin1_id", "bin2_id"])
+        agg = gby["chrom_id1"].count().reset_index().rename(columns={"chrom_id1": "count"})
+        yield agg
+''')
+
+_reg('cooler.create._ingest.PairixAggregator.aggregate', 'cooler.create._ingest',
+     'per row bin and per remaining chromosome: 2-D query in the orientation the block is stored; the second anchor (minus one when '
+     'one-based) binned on its own chromosome; counts per (bin1, bin2); accumulator cleared per row', '''
+def ref(self, grange):
+    chrom1, start, end = grange
+    import pypairix
+    gs = self.gs
+    decr = int(self.is_one_based)
+    f = pypairix.open(self.filepath, "r")
+    these_bins = gs.fetch((chrom1, start, end))
+    remaining = gs.idmap[chrom1:]
+    acc = Counter()
+    rows = []
+    for bin1_id, bin1 in these_bins.iterrows():
+        for chrom2, cid2 in remaining.items():
+            size2 = gs.chromsizes[chrom2]
+            if chrom1 != chrom2 and f.exists2(chrom2, chrom1):
+                it = f.query2D(chrom2, 0, size2, chrom1, bin1.start, bin1.end)
+                col = self.P1
+            else:
+                it = f.query2D(chrom1, bin1.start, bin1.end, chrom2, 0, size2)
+                col = self.P2
+            for line in it:
+                pos2 = int(line[col]) - decr
+                if gs.binsize is None:
+                    lo = gs.chrom_binoffset[cid2]
+                    hi = gs.chrom_binoffset[cid2 + 1]
+                    bin2_id = lo + np.searchsorted(gs.start_abspos[lo:hi], gs.chrom_abspos[cid2] + pos2, side="right") - 1
+                else:
+                    bin2_id = gs.chrom_binoffset[cid2] + (pos2 // gs.binsize)
+                acc[bin2_id] += 1
+        if not acc:
+            continue
+        rows.append(pd.DataFrame({"bin1_id": bin1_id, "bin2_id": list(acc.keys()), "count": list(acc.values())},
+                                 columns=["bin1_id", "bin2_id", "count"]).sort_values("bin2_id"))
+        acc.clear()
+    return pd.concat(rows, axis=0) if len(rows) else None
+''')
+
+_reg('cooler.util.closing_hdf5.__exit__', 'cooler.util', 'leaving the context closes the file', '''
+def ref(self, *exc_info):
+    return self.file.close()
+''')
+_reg('cooler.util.closing_hdf5.close', 'cooler.util', 'close closes the file', '''
+def ref(self):
+    self.file.close()
+''')
+_reg('cooler.util.closing_hdf5.__enter__', 'cooler.util', 'the group itself', '''
+def ref(self):
+    return self
+''')
+_reg('cooler.util.asarray_or_dataset', 'cooler.util', 'datasets pass through, everything else becomes an array', '''
+def ref(x):
+    return x if isinstance(x, h5py.Dataset) else np.asarray(x)
+''')
+_reg('cooler.util.natsorted', 'cooler.util', 'natural sort', '''
+def ref(iterable):
+    return sorted(iterable, key=natsort_key)
+''')
+_reg('cooler.util.argnatsort', 'cooler.util', 'natural argsort', '''
+def ref(array):
+    array = np.asarray(array)
+    if not len(array):
+        return np.array([], dtype=int)
+    cols = tuple(zip(*(natsort_key(x) for x in array)))
+    return np.lexsort(cols[::-1])
+''')
+_reg('cooler.util.get_meta', 'cooler.util',
+     'empty header frame: the given dtypes by column name, the default dtype for every other column, columns in the given order', '''
+def ref(columns, dtype=None, index_columns=None, index_names=None, default_dtype=np.object_):
+    columns = list(columns)
+    if not isinstance(dtype, dict):
+        dtype = defaultdict(lambda: dtype or default_dtype)
+    else:
+        _dtype = dtype.copy()
+        dtype = defaultdict(lambda: default_dtype)
+        for k, v in _dtype.items():
+            col = columns[k] if is_integer(k) else k
+            dtype[col] = v
+    if index_columns is None or index_columns is False:
+        index = pd.Index([])
+    else:
+        data = [pd.Series([], dtype=dtype[name]) for name in index_names]
+        if len(data) == 1:
+            index = pd.Index(data[0], name=index_names[0])
+        else:
+            index = pd.MultiIndex.from_arrays(data, names=index_names)
+        index_columns.sort()
+        for i, n in enumerate(index_columns):
+            columns.pop(n - i)
+    col_dict = {col_name: pd.Series([], dtype=dtype[col_name]) for col_name in columns}
+    return pd.DataFrame(col_dict, columns=columns, index=index)
+''')
+_reg('cooler.cli._util.DelimitedTuple.convert', 'cooler.cli._util', 'comma separated list -> tuple of converted parts; None passes through', '''
+def ref(self, value, param, ctx):
+    if value is None:
+        return value
+    elif isinstance(value, str):
+        parts = value.split(",")
+    else:
+        parts = value
+    return tuple(self.type(x, param, ctx) for x in parts)
+''')
+_reg('cooler.cli._util.parse_kv_list_param', 'cooler.cli._util', 'k1=v1,k2=v2 parsed as a mapping; malformed input refused', '''
+def ref(arg, item_sep=",", kv_sep="="):
+    from io import StringIO
+    import yaml
+    if item_sep != ",":
+        arg = arg.replace(item_sep, ",")
+    arg = "{" + arg.replace(kv_sep, ": ") + "}"
+    try:
+        result = yaml.safe_load(StringIO(arg))
+    except yaml.YAMLError as e:
+        raise click.BadParameter("parse error") from e
+    return result
+''')
+_reg('cooler.cli.zoomify.invoke_balance', 'cooler.cli.zoomify',
+     'every produced level that has no weight column yet is balanced with the given arguments; a failing balance propagates', '''
+def ref(args, resolutions, outfile):
+    from .balance import balance as balance_cmd
+    logger = get_logger(__name__)
+    if args is None:
+        args = []
+    else:
+        args = shlex.split(args)
+    for res in resolutions:
+        uri = outfile + "::resolutions/" + str(res)
+        if "weight" in api.Cooler(uri).bins():
+            continue
+        try:
+            balance_cmd.main(args=[uri, *args], prog_name="cooler")
+        except SystemExit as e:
+            exit_code = e.code
+            if exit_code is None:
+                exit_code = 0
+            if exit_code != 0:
+                raise e
+''')
+_reg('cooler._reduce.legacy_zoomify', 'cooler._reduce',
+     'legacy layout: base copied to level n_zooms, each lower level coarsened by 2 from the level above, bookkeeping attributes', '''
+def ref(input_uri, outfile, nproc, chunksize, lock=None):
+    infile, ingroup = parse_cooler_uri(input_uri)
+    clr = Cooler(infile, ingroup)
+    n_zooms = get_quadtree_depth(clr.chromsizes, clr.binsize, HIGLASS_TILE_DIM)
+    factor = 2
+    zoom_levels = OrderedDict()
+    zoomLevel = str(n_zooms)
+    binsize = clr.binsize
+    with h5py.File(infile, "r") as src, h5py.File(outfile, "w") as dest:
+        src.copy(ingroup, dest, str(zoomLevel))
+        zoom_levels[zoomLevel] = binsize
+    for i in range(n_zooms - 1, -1, -1):
+        binsize *= factor
+        prevLevel = str(i + 1)
+        zoomLevel = str(i)
+        coarsen_cooler(outfile + "::" + str(prevLevel), outfile + "::" + str(zoomLevel), factor, chunksize=chunksize,
+                       nproc=nproc, lock=lock)
+        zoom_levels[zoomLevel] = binsize
+    with h5py.File(outfile, "r+") as fw:
+        fw.attrs.update({"max-zoom": n_zooms})
+        fw.attrs["max-zooms"] = n_zooms
+        fw.attrs.update(zoom_levels)
+    return n_zooms, zoom_levels
+''')
+_reg('cooler._reduce.get_quadtree_depth', 'cooler._reduce', 'levels needed to reach one tile', '''
+def ref(chromsizes, base_binsize, bins_per_tile):
+    tile_length_bp = bins_per_tile * base_binsize
+    total_bp = sum(chromsizes)
+    n_tiles = math.ceil(total_bp / tile_length_bp)
+    n_zoom_levels = int(math.ceil(np.log2(n_tiles)))
+    return n_zoom_levels
+''')
